@@ -100,4 +100,22 @@ theorem eof_grammar_core (env : Env) (bs : Bytes) (s : St) (c : Code) (hf : Feed
   · exact Or.inl hk
   · exact Or.inr ⟨h1, h2, h3⟩
 
+/-- … and that prefix is not itself a JSON text -/
+theorem eof_grammar_core_strong (env : Env) (bs : Bytes) (s : St) (c : Code) (hf : Feeds env init bs s)
+    (hfin : finish env s = .error c) (hc : classify c = .eof) :
+    ∃ k ys t, (k = 0 ∨ (0 < k ∧ k ≤ 3 ∧ ∃ x, bs.take (bs.length - k) = x ++ [0x5c, 0x75])) ∧
+      k ≤ bs.length ∧ ys ≠ [] ∧ JsonText (bs.take (bs.length - k) ++ ys) t ∧
+      ∀ t', ¬ JsonText (bs.take (bs.length - k)) t' := by
+  obtain ⟨t1, hft, hsim⟩ := feeds_sim env (ign env) (ign_tgt env) init init s bs sim_init hf
+  obtain ⟨c', hfin'⟩ := finish_sim env (ign env) (ign_tgt env) s t1 c hsim hfin hc
+  obtain ⟨k, ys, v, hk, hle, hne, hv, hnot⟩ := eof_viable_core_strong (ign env) bs t1 c' hft hfin'
+    (sideOK_ignored _ (ign_tgt env) _) (expOK_ignored _ (ign_tgt env) _)
+  obtain ⟨t, ht⟩ := (ign_accepts_iff _ (ign_tgt env) _).mp ⟨v, hv⟩
+  refine ⟨k, ys, t, ?_, hle, hne, ht, fun t' ht' => ?_⟩
+  · rcases hk with hk | ⟨h1, h2, _, h3⟩
+    · exact Or.inl hk
+    · exact Or.inr ⟨h1, h2, h3⟩
+  · obtain ⟨v', hv'⟩ := (ign_accepts_iff _ (ign_tgt env) _).mpr ⟨t', ht'⟩
+    exact hnot v' hv'
+
 end SJ.Proofs.EarliestGrammar
